@@ -468,3 +468,8 @@ MANIFEST_ENTRY = dict(
          '304 exactly when justified, never after a rewrite with the old ETag, no-store and no validators for uncacheable tiles.',
     note='Hash and HTTP-date functions are stubs with stated contracts (date contract validated concretely each run); WMS-C outside.',
 )
+
+# --- manifest text refreshed after rounds 6-8 (obligations added since the entry above was written)
+MANIFEST_ENTRY['text'] = MANIFEST_ENTRY['text'] + ' WMS-C answers; timestamps from store/stat; an upstream answer marked uncacheable is never stored and never served with validators -- through the single, meta and filtered paths and through the merge of several sources.'
+MANIFEST_ENTRY['note'] = 'Hash and HTTP-date functions are stubs with stated contracts (date contract validated concretely each run); PIL in the merge loop is a stub (only the cacheable flag is asserted there).'
+META['assumptions'] = list(META.get('assumptions', [])) + ['merged-tile obligations: PIL replaced by the C14 per-pixel stub; only the cacheable flag of the merged image is asserted']
